@@ -441,8 +441,11 @@ pub fn gen_base(seed: u64, run: u64) -> PCase {
     }
     let mut post = Vec::new();
     post.push(gen_call(&mut r, s, k0, whole));
-    for _ in 0..r.below(4) {
-        let k = r.below(nk) as Key;
+    for _ in 0..r.below(5) {
+        if r.chance(1, 4) {
+            post.push(POp::Adv(*r.pick(&steps)));
+        }
+        let k = if r.chance(1, 3) { k0 } else { r.below(nk) as Key };
         post.push(gen_call(&mut r, s, k, whole));
     }
     PCase { f: s.id, pre, victim, polls: 1, resume: true, during, post, shards: *r.pick(&[1u8, 2, 4]), salt: r.next_u64() }
